@@ -179,6 +179,17 @@ def rule_err(ctx: Ctx) -> RuleReport:
         else:
             rep.fail(Finding("C18-ERR", CL, send.qual, "masked: " + anorm(r.exc.func if isinstance(r.exc, ast.Call) else r.exc, send.node) + " status_code=" + anorm(sc, send.node),
                              f"the request error raised with status_code={short(sc, 30)} is raised inside a try whose `except {', '.join(_hnames(masked))}` handler (line {masked.lineno}) catches it and raises something else: the caller sees an error without the HTTP status", line=r.lineno))
+    # nobody converts the request error (status + URL) into another class on its way to the caller
+    for name, fi in methods.items():
+        for t in [n for n in walk_own(fi.node) if isinstance(n, ast.Try)]:
+            for h in t.handlers:
+                if "SharePointRequestError" not in _hnames(h):
+                    continue
+                conv = [r for st in h.body for r in ast.walk(st) if isinstance(r, ast.Raise) and r.exc is not None and raised_class(r) not in (None, "SharePointRequestError") and not (isinstance(r.exc, ast.Name) and r.exc.id == h.name)]
+                if conv:
+                    rep.fail(Finding("C18-ERR", CL, fi.qual, "request error converted to " + str(raised_class(conv[0])), f"{name} catches SharePointRequestError and raises {raised_class(conv[0])} instead: the caller no longer gets the request error with the HTTP status and the URL of the failed request", line=conv[0].lineno))
+                else:
+                    rep.ok({"handler": f"{fi.qual}: except SharePointRequestError", "keeps_class": True})
     # HTTP status of the HTTPError path
     for t in [n for n in walk_own(send.node) if isinstance(n, ast.Try)]:
         for h in t.handlers:
